@@ -12,6 +12,7 @@ import (
 	"errors"
 	"fmt"
 	"math/big"
+	"os"
 	"sort"
 	"strings"
 	"sync"
@@ -304,6 +305,53 @@ func (p *vmPool) get(w *world) *sysVM {
 func (p *vmPool) put(v *sysVM) {
 	v.w = nil
 	p.pool.Put(v)
+}
+
+// memo keeps snapshots of recently materialised histories. mc.BFS builds every successor by
+// replaying the whole history on a fresh instance; the world is plain data, so an instance
+// here is lazy: Do only records the operation, and the first observation (Enabled, Check,
+// Key, ...) materialises the state by restoring the snapshot of the longest memoised prefix
+// of its history and really executing the remaining operations on the contracts. A frontier
+// history is thus executed once and each of its successors costs one real transaction.
+// Equivalent to the full replay because every operation is deterministic (same counts with
+// the memo disabled: SYSSC_NOMEMO=1).
+type memo struct {
+	mu    sync.Mutex
+	m     map[string]interface{}
+	ring  []string
+	next  int
+	noUse bool
+}
+
+func newMemo(capacity int) *memo {
+	return &memo{m: map[string]interface{}{}, ring: make([]string, capacity), noUse: os.Getenv("SYSSC_NOMEMO") != ""}
+}
+
+func (c *memo) get(hist []byte) interface{} {
+	if c.noUse {
+		return nil
+	}
+	c.mu.Lock()
+	v := c.m[string(hist)]
+	c.mu.Unlock()
+	return v
+}
+
+func (c *memo) put(hist []byte, v interface{}) {
+	if c.noUse {
+		return
+	}
+	k := string(hist)
+	c.mu.Lock()
+	if _, ok := c.m[k]; !ok {
+		if old := c.ring[c.next]; old != "" {
+			delete(c.m, old)
+		}
+		c.ring[c.next] = k
+		c.next = (c.next + 1) % len(c.ring)
+		c.m[k] = v
+	}
+	c.mu.Unlock()
 }
 
 func must(err error) {
